@@ -23,6 +23,7 @@ from xmlschema.exceptions import XMLSchemaAttributeError, XMLSchemaKeyError, \
     XMLSchemaTypeError, XMLSchemaValueError
 from xmlschema.translation import gettext as _
 from xmlschema.utils.qnames import local_name, get_qname
+from xmlschema import _verif_trace
 
 from .helpers import parse_xsd_derivation
 from .exceptions import XMLSchemaCircularityError, XMLSchemaModelDepthError
@@ -504,12 +505,20 @@ class StagedMap(Mapping[str, CT]):
             try:
                 elem, schema = obj  # type: ignore[misc]
             except ValueError:
+                if _verif_trace.ENABLED:
+                    _verif_trace.emit('build.circular', map=type(self).__name__, maps=id(self._builders),
+                                      qname=qname)
                 raise XMLSchemaCircularityError(qname, *obj[0])
 
             # Encapsulate into a tuple to catch circular builds
             self._staging[qname] = ((elem, schema),)
+            if _verif_trace.ENABLED:
+                _verif_trace.emit('build.begin', map=type(self).__name__, maps=id(self._builders), qname=qname)
             self._store[qname] = self._factory_or_class(elem, schema)
             self._staging.pop(qname)
+            if _verif_trace.ENABLED:
+                _verif_trace.emit('build.end', map=type(self).__name__, maps=id(self._builders), qname=qname,
+                                  staged=qname in self._staging)
             return self._store[qname]
 
         else:
